@@ -687,6 +687,45 @@ fn handle(st: &mut State, req: &J) -> J {
             }
             json!({"ok": true, "results": out})
         }
+        #[cfg(quiver_verif)]
+        "narrow" => {
+            // narrowing's type arithmetic (private to the compiler crate; reached through the
+            // cfg(quiver_verif) re-export) on a Program rebuilt from this bytecode's type tables.
+            // All pairs are computed on the same Program, so the returned tables contain every
+            // result type.
+            let h = match get_h(st, req) { Ok(h) => h, Err(e) => return e };
+            let bc = &st.progs[h].bytecode;
+            let kind = req.get("kind").and_then(|m| m.as_str()).unwrap_or("intersect").to_string();
+            let pairs = req.get("pairs").and_then(|p| p.as_array()).cloned().unwrap_or_default();
+            let rebuilt: Result<Program, _> = serde_json::from_value(json!({
+                "constants": [], "functions": [], "builtins": [],
+                "tuples": serde_json::to_value(&bc.tuples).unwrap(),
+                "types": serde_json::to_value(&bc.types).unwrap(),
+            }));
+            let mut program = match rebuilt {
+                Ok(p) => p,
+                Err(e) => return json!({"ok": false, "error": format!("cannot rebuild Program: {e}")}),
+            };
+            let mut out = Vec::new();
+            for p in pairs {
+                let a = p.get(0).and_then(|x| x.as_u64()).unwrap_or(0) as usize;
+                let b = p.get(1).and_then(|x| x.as_u64()).unwrap_or(0) as usize;
+                let r = std::panic::catch_unwind(std::panic::AssertUnwindSafe(|| {
+                    if kind == "complement" {
+                        quiver_compiler::compiler::verif_hooks::compute_complement(a, b, &mut program)
+                    } else {
+                        quiver_compiler::compiler::verif_hooks::intersect_types(a, b, &mut program)
+                    }
+                }));
+                match r {
+                    Ok(id) => out.push(json!(id)),
+                    Err(_) => out.push(J::Null),
+                }
+            }
+            json!({"ok": true, "results": out,
+                   "types": serde_json::to_value(program.get_types()).unwrap(),
+                   "tuples": serde_json::to_value(program.get_tuples()).unwrap()})
+        }
         "tree_shake" => {
             let h = match get_h(st, req) { Ok(h) => h, Err(e) => return e };
             let bc = st.progs[h].bytecode.clone();
